@@ -56,16 +56,17 @@ class KademliaRPC:
         return b'pong'
 
     def store(self, rpc_contact: 'KademliaPeer', blob_hash: bytes, token: bytes, port: int) -> bytes:
-        if len(blob_hash) != constants.HASH_BITS // 8:
-            raise ValueError(f"invalid length of blob hash: {len(blob_hash)}")
-        if not 0 < port < 65535:
-            raise ValueError(f"invalid tcp port: {port}")
-        rpc_contact.update_tcp_port(port)
+        if not isinstance(blob_hash, bytes) or len(blob_hash) != constants.HASH_BITS // 8:
+            raise ValueError("invalid blob hash")
+        if not isinstance(port, int) or not 0 < port < 65535:
+            raise ValueError("invalid tcp port")
         if not self.verify_token(token, rpc_contact.compact_ip()):
             if self.loop.time() - self.protocol.started_listening_time < constants.TOKEN_SECRET_REFRESH_INTERVAL:
                 pass
             else:
                 raise ValueError("Invalid token")
+        # only touch the contact (it is shared with this peer's earlier announcements) once the request is accepted
+        rpc_contact.update_tcp_port(port)
         self.protocol.data_store.add_peer_to_blob(
             rpc_contact, blob_hash
         )
